@@ -764,6 +764,14 @@ func (dc *DirectConnection) ExecuteWithTimeout(sql string, maxRows int, timeout 
 
 	go func() {
 		var err error
+		// the caller may give up after the timeout and close the connection while exec is
+		// still reading from it; a panic here must not take the whole proxy down
+		defer func() {
+			if r := recover(); r != nil {
+				log.Warn("panic in DirectConnection ExecuteWithTimeout(): %v\nStack trace:\n%s", r, debug.Stack())
+				errChan <- fmt.Errorf("panic in DirectConnection ExecuteWithTimeout(): %v", r)
+			}
+		}()
 		res, err = dc.exec(sql, maxRows)
 		errChan <- err
 	}()
